@@ -34,7 +34,61 @@ def make_loopspecs(case):
                                   'lru-eviction')
         specs[(fq, 1)] = LoopSpec(lambda ctx: compact_invariant(case, ctx),
                                   lambda I, h, entry: compact_havoc(case, I, h, entry), 'lru-compaction')
+    if case.policy == 'mru':
+        specs[(fq, 0)] = LoopSpec(lambda ctx: mru_invariant(case, ctx), lambda I, h, entry: mru_havoc(case, I, h, entry),
+                                  'mru-eviction')
     return specs
+
+
+# ---------------------------------------------------------------------------------------------
+# MRU:  k = key
+#       while queue: _k = pop(); if _k in cache: k = _k; break
+# invariant at the loop head: only the right end of the queue has been consumed, every key
+# popped so far is not resident, and no local that was bound before the loop has changed.
+# ---------------------------------------------------------------------------------------------
+def mru_havoc(case, I, h, entry):
+    q = DequeObj.symbolic('Mq', 'queue')
+    h.put(case.queue_ref, q)
+    h.assume(*q.facts())
+
+
+def locals_unchanged(ctx):
+    """every local that the loop assigns and that was bound at loop entry still has its entry value
+    at the loop head (assignments in the body are followed by a break)"""
+    I = ctx.I
+    conj = []
+    for nm in sorted(I._assigned_names(ctx.node)):
+        v0 = ctx.entry.envs[ctx.eid].get(nm)
+        v1 = ctx.st.envs[ctx.eid].get(nm)
+        if v0 is None:
+            continue
+        if v1 is None:
+            conj.append(z3.BoolVal(False))
+        elif isinstance(v0, Opaque) and isinstance(v1, Opaque):
+            conj.append(v0.term == v1.term)
+        elif isinstance(v0, IntV) and isinstance(v1, IntV):
+            conj.append(v0.term == v1.term)
+        elif v0 is v1:
+            continue
+        else:
+            conj.append(z3.BoolVal(False))
+    return z3.And(*conj) if conj else z3.BoolVal(True)
+
+
+def mru_invariant(case, ctx):
+    q0 = ctx.entry.get(case.queue_ref)
+    q = ctx.st.get(case.queue_ref)
+    mem = ctx.st.get(case.cache_ref)
+    x = x_()
+    j = j_()
+    return [('locals', locals_unchanged(ctx)),
+            ('queue.array', z3.And(q.lo == q0.lo, q.lo <= q.hi, q.hi <= q0.hi,
+                                   forall([j], z3.Implies(z3.And(q.lo <= j, j < q.hi), q.arr[j] == q0.arr[j]),
+                                          patterns=[q.arr[j]]))),
+            ('queue.hashable', forall([x], z3.Implies(q.cnt[x] >= 1, Hashable(x)), patterns=[q.cnt[x]])),
+            ('popped.not_resident', forall([j], z3.Implies(z3.And(q.hi <= j, j < q0.hi),
+                                                           z3.Not(mem.dom[q0.arr[j]])), patterns=[q0.arr[j]])),
+            ]
 
 
 # ---------------------------------------------------------------------------------------------
